@@ -791,6 +791,9 @@ func init() {
 		return TupleV{v, errv}
 	}
 	stubs["strconv.ParseFloat"] = func(e *Exec, st *State, fn *ssa.Function, args []Val, where string) Val {
+		if sv, isS := args[0].(*StrV); isS && sv.Sym != nil {
+			return e.parseFloatSym(st, sv, where)
+		}
 		s, ok := e.concStr(args[0])
 		if !ok {
 			e.unsupported(st, "ParseFloat on symbolic string at "+where)
@@ -963,6 +966,72 @@ func (e *Exec) parseInt(st *State, sv Val, bits int, where string) (Val, Val) {
 		errv = &IfaceIte{C: okT, A: &IfaceV{}, B: e.mkError(&StrV{Conc: "strconv: invalid syntax"}).(*IfaceV)}
 	}
 	return tv[0], errv
+}
+
+// parseFloatSym: strconv.ParseFloat on a byte-symbolic text of the shape [sign] digits [ '.' digits ] where sign
+// and '.' are concrete bytes and every symbolic byte is read as a decimal digit: the parse succeeds iff all
+// symbolic bytes are digits (and the concrete skeleton is a number); the value is the positional value (Real).
+func (e *Exec) parseFloatSym(st *State, sv *StrV, where string) Val {
+	s := e.S
+	bs := sv.Sym
+	bad := func() Val {
+		return TupleV{e.F.FloatConst(0), e.mkError(&StrV{Conc: "strconv.ParseFloat: invalid syntax"})}
+	}
+	if e.F.FloatSort().K != KReal {
+		e.unsupported(st, "ParseFloat on symbolic digits in bit-precise mode at "+where)
+		return TupleV{&Poison{Why: "ParseFloat"}, &Poison{Why: "ParseFloat"}}
+	}
+	i := 0
+	neg := false
+	if len(bs) > 0 {
+		if k, ok := bs[0].ConstInt(); ok && (k == '-' || k == '+') {
+			neg = k == '-'
+			i = 1
+		}
+	}
+	ok := s.True
+	val := s.Rat(big.NewRat(0, 1))
+	digits, frac := 0, 0
+	seenDot := false
+	for ; i < len(bs); i++ {
+		b := bs[i]
+		if k, isC := b.ConstInt(); isC {
+			if k == '.' && !seenDot {
+				seenDot = true
+				continue
+			}
+			if k < '0' || k > '9' {
+				return bad()
+			}
+		} else {
+			ok = s.And(ok, s.And(s.Le(s.Int('0'), b), s.Le(b, s.Int('9'))))
+		}
+		digits++
+		if seenDot {
+			frac++
+		}
+		val = s.Add(s.Mul(val, s.Rat(big.NewRat(10, 1))), s.ToReal(s.Sub(b, s.Int('0'))))
+	}
+	if digits == 0 {
+		return bad()
+	}
+	scale := big.NewRat(1, 1)
+	for k := 0; k < frac; k++ {
+		scale.Mul(scale, big.NewRat(1, 10))
+	}
+	val = s.Mul(val, s.Rat(scale))
+	if neg {
+		val = s.Neg(val)
+	}
+	val = s.Ite(ok, val, s.Rat(big.NewRat(0, 1)))
+	var errv Val
+	switch {
+	case ok.IsTrue():
+		errv = &IfaceV{}
+	default:
+		errv = &IfaceIte{C: ok, A: &IfaceV{}, B: e.mkError(&StrV{Conc: "strconv.ParseFloat: invalid syntax"}).(*IfaceV)}
+	}
+	return TupleV{val, errv}
 }
 
 func (e *Exec) symStrFunc(st *State, name string, s *StrV, where string) Val {
